@@ -100,10 +100,10 @@ class SymKDTree:
         _use("spatial.cKDTree.query_ball_point")
         from .prelude_index import BallResult
 
-        if p != float("inf"):
-            raise Unsupported("query_ball_point with p != inf")
+        if p not in (float("inf"), 2, 2.0, 1, 1.0):
+            raise Unsupported("query_ball_point with p=%r" % (p,))
         nq, xq, single = self._queries(x)
-        return BallResult(self, nq, xq, r, single)
+        return BallResult(self, nq, xq, r, single, p)
 
 
 cKDTree = SymKDTree
